@@ -43,7 +43,7 @@ WORKERS = {"quick": 1, "thorough": 14}
 
 def gen_cases(ctx):
     rng = ctx.rng
-    for i in range(ctx.scale(3000, 60000)):
+    for i in range(ctx.scale(3000, 360000)):
         lo_j = rng.randint(1, 6); hi_j = lo_j + rng.choice([0, 0, 1, 3, 5])
         lo_m = rng.randint(1, 6); hi_m = lo_m + rng.choice([0, 0, 1, 3, 5])
         flag = rng.random() < 0.35
